@@ -30,6 +30,7 @@ def run(P, rep, tier):
     eit, epaths = r_expand(P, u, rep)
     r_subst(P, u, rep)
     r_arg_one(P, u, rep)
+    r_args(P, u, rep)
     r_definition(P, u, rep)
     try:
         r_hideset_prims(P, u, rep)
@@ -420,6 +421,121 @@ def r_arg_one(P, u, rep):
     A.flush()
     if nret == 0:
         rep.undecided('R09.5', '%s:%s:no-return-path' % (U, fn), 'no path of %s returns an argument' % fn, where=where)
+
+
+def r_args(P, u, rep):
+    fn = 'read_macro_args'
+    for f in (fn, 'read_macro_arg_one', 'new_eof'):
+        if f not in u.functions:
+            raise AnalysisBroken('anchor %s vanished' % f)
+
+    def cut_one(it, ctx, n, args):
+        if len(args) != 3 or not isinstance(args[0], _Ref):
+            raise AnalysisBroken('read_macro_arg_one call shape changed (line %d)' % n.line)
+        k = len([e for e in ctx.events if e[0] == 'call' and e[1] == 'read_macro_arg_one'])
+        stop = Obj('Token', lazy=True, label='stop%d' % k)
+        args[0].place.set(it, stop)
+        res = Obj('MacroArg', lazy=False, label='arg%d' % k)
+        ctx.emit('call', 'read_macro_arg_one', args, n.line, res, stop)
+        return res
+
+    def cut_skip(it, ctx, n, args):
+        t = as_obj(it, args[0], n)
+        if not isinstance(t, Obj) or not isinstance(args[1], str):
+            raise AnalysisBroken('skip() shape not understood (line %d)' % n.line)
+        r = as_obj(it, it.read_field(t, 'next'), n)
+        ctx.emit('call', 'skip', [t, args[1]], n.line, r)
+        return r
+
+    it = PInterp(P, u, {'opaque': ['equal', 'new_eof'], 'cut': {'read_macro_arg_one': cut_one, 'skip': cut_skip}, 'loop_limit': 2, 'track_stores': True})
+
+    def mk(ctx):
+        ctx.tok = Obj('Token', lazy=True, label='tok')
+        ctx.box = {'rest': 0}
+        ctx.params = it.lazy_value('MacroParam *', 'params')
+        ctx.va = Sym('va_name', 'char *')
+        return [_Ref(VarPlace(ctx.box, 'rest')), ctx.tok, ctx.params, ctx.va]
+
+    A = Agg(rep)
+    where = '%s:%d' % (U, u.fn(fn).line)
+    nret = 0
+    for ctx, out in it.explore(fn, mk):
+        if out[0] != 'ret':
+            continue
+        nret += 1
+        facts = {'path': ctx.trail}
+        calls = [e for e in ctx.events if e[0] == 'call']
+        reads = [e for e in calls if e[1] == 'read_macro_arg_one']
+        named = [e for e in reads if it.settle(e[2][2]) == 0]
+        restr = [e for e in reads if it.settle(e[2][2]) != 0]
+        plist, _ = chain(it, ctx.params)
+        va_on = 0 in ctx.neq.get(('sym', 'va_name'), ())
+        va_off = ctx.bounds.get(('sym', 'va_name')) == [0, 0]
+        A.ob('R09.5', '%s:%s:one-argument-per-parameter' % (U, fn), len(named) == len(plist) and reads[:len(named)] == named,
+             '%d named parameter(s) but %d argument(s) read with read_rest=false (in that order first)' % (len(plist), len(named)), where, facts)
+        if len(named) != len(plist):
+            continue
+        # starts
+        prev_stop = None
+        ok_start = True
+        ok_name = True
+        for i, e in enumerate(named):
+            st = as_obj(it, e[2][1])
+            if i == 0:
+                want = as_obj(it, as_obj(it, ctx.tok.fields.get('next', 0)).fields.get('next', 0)) if 'next' in ctx.tok.fields else None
+                A.ob('R09.5', '%s:%s:first-argument-after-paren' % (U, fn), st is want, 'the first argument is not read from the token after "name ("', where, facts)
+            else:
+                sk = [c for c in calls if c[1] == 'skip' and c[2][0] is prev_stop and c[2][1] == ',' and c[4] is st]
+                ok_start = ok_start and bool(sk)
+            prev_stop = e[5]
+            nm = e[4].fields.get('name')
+            ok_name = ok_name and nm is not None and nm is plist[i].fields.get('name')
+        if len(named) > 1:
+            A.ob('R09.5', '%s:%s:comma-between-arguments' % (U, fn), ok_start,
+                 'a following argument is not read from the token after the "," at which the previous argument stopped (skip(tok, ",") missing or misplaced)', where, facts)
+        if named:
+            A.ob('R09.5', '%s:%s:argument-named-after-parameter' % (U, fn), ok_name,
+                 'an argument is not stored under the name of the parameter at the same position: find_arg would substitute the wrong (or no) argument', where, facts)
+        # variadic
+        lst, _ = chain(it, out[1]) if out[1] is not None else ([], None)
+        expect = [e[4] for e in named]
+        if va_on:
+            last = lst[-1] if lst else None
+            ok_va = isinstance(last, Obj) and getattr(last.fields.get('name'), 'name', None) == 'va_name' and it.settle(last.fields.get('is_va_args', 0)) == 1
+            A.ob('R09.5', '%s:%s:variadic-argument-appended' % (U, fn), ok_va and len(lst) == len(named) + 1,
+                 'for a variadic macro the last argument is not the one named va_args_name with is_va_args set (list has %d entries for %d named parameters)' % (len(lst), len(named)), where, facts)
+            if restr:
+                e = restr[0]
+                st = as_obj(it, e[2][1])
+                if named:
+                    sk = [c for c in calls if c[1] == 'skip' and c[2][0] is prev_stop and c[2][1] == ',' and c[4] is st]
+                    A.ob('R09.5', '%s:%s:variadic-after-comma' % (U, fn), bool(sk), 'the variadic rest is not read from the token after the "," that ends the last named argument', where, facts)
+                else:
+                    want = as_obj(it, as_obj(it, ctx.tok.fields.get('next', 0)).fields.get('next', 0))
+                    A.ob('R09.5', '%s:%s:variadic-only-after-paren' % (U, fn), st is want, 'with no named parameter the variadic rest is not read from the token after "("', where, facts)
+                A.ob('R09.5', '%s:%s:variadic-is-rest' % (U, fn), last is e[4] and len(restr) == 1, 'the variadic argument is not the one read with read_rest=true', where, facts)
+                prev_stop = e[5]
+            else:
+                ne = [c for c in calls if c[1] == 'new_eof']
+                eq = [c for c in calls if c[1] == 'equal' and c[2][1] == ')' and it.settle(c[4]) == 1]
+                A.ob('R09.5', '%s:%s:variadic-empty' % (U, fn), bool(ne) and bool(eq) and isinstance(last, Obj) and last.fields.get('tok') is ne[-1][4],
+                     'an omitted variadic part is not represented by an empty (EOF-only) argument, or is assumed without ")" being next', where, facts)
+            expect = expect + [last]
+        elif va_off:
+            A.ob('R09.5', '%s:%s:non-variadic-has-no-rest' % (U, fn), not restr, 'a non-variadic macro reads a variadic rest', where, facts)
+        A.ob('R09.5', '%s:%s:arguments-in-order' % (U, fn), len(lst) == len(expect) and all(a is b for a, b in zip(lst, expect)),
+             'the returned argument list is not the arguments in reading order', where, facts)
+        # closing paren
+        fin = it.settle(ctx.box['rest'])
+        sk = [c for c in calls if c[1] == 'skip' and c[2][1] == ')']
+        stop_final = prev_stop
+        if stop_final is None:      # no argument read at all: the token after "("
+            stop_final = as_obj(it, as_obj(it, ctx.tok.fields.get('next', 0)).fields.get('next', 0)) if 'next' in ctx.tok.fields else None
+        A.ob('R09.5', '%s:%s:rest-is-closing-paren' % (U, fn), isinstance(fin, Obj) and fin is stop_final and any(c[2][0] is fin for c in sk),
+             '*rest is not the token at which the last argument stopped, or that token is not checked to be ")": expand_macro continues after the wrong token', where, facts)
+    A.flush()
+    if nret == 0:
+        rep.undecided('R09.5', '%s:%s:no-return-path' % (U, fn), 'no returning path', where=where)
 
 
 def r_definition(P, u, rep):
